@@ -21,12 +21,23 @@ func answer(p int) int { return p*10 + 1 }
 // askScenario: n askers; each asks once with the given mode, then (if second) asks again with
 // AskOnce, which must be answered whatever happened to the first request.
 func askScenario(n int, mode, reply string, second bool, bound int) *vsched.Scenario {
+	return askScenarioCh(n, mode, reply, second, -1, bound)
+}
+
+// own >= 0: the first-round Ask is built with AskNewByOptionsGenerics on a reply channel of that
+// capacity supplied by the caller.
+func askScenarioCh(n int, mode, reply string, second bool, own int, bound int) *vsched.Scenario {
 	fam := mode + "-" + reply
+	chn := ""
+	if own >= 0 {
+		chn = fmt.Sprintf("/own-channel-cap%d", own)
+	}
 	return &vsched.Scenario{
-		Name:     fmt.Sprintf("ask/%s/reply-%s/askers%d/second=%v", mode, reply, n, second),
+		Name:     fmt.Sprintf("ask/%s/reply-%s/askers%d/second=%v%s", mode, reply, n, second, chn),
 		Bound:    bound,
 		TimerDev: true,
 		Body: func() {
+			vsched.PoolRetain = 0
 			actor := fpgo.ActorNewGenerics(func(self *fpgo.ActorDef[interface{}], msg interface{}) {
 				a := msg.(*fpgo.AskDef[int, int])
 				p := a.Message
@@ -49,6 +60,9 @@ func askScenario(n int, mode, reply string, second bool, bound int) *vsched.Scen
 				vsched.GoNamed(fmt.Sprintf("asker%d", i), func() {
 					p := i + 1
 					ask := fpgo.AskNewGenerics[int, int](p)
+					if own >= 0 {
+						ask = fpgo.AskNewByOptionsGenerics[int, int](p, make(chan int, own))
+					}
 					switch mode {
 					case "once":
 						v := ask.AskOnce(actor)
@@ -121,6 +135,72 @@ func askScenario(n int, mode, reply string, second bool, bound int) *vsched.Scen
 	}
 }
 
+// timeoutSeries: one asker issues AskOnceWithTimeout(10 ms) calls one after the other; the actor's
+// latency for request k is lat[k] ("now", "edge" = exactly the timeout, "late" = 20 ms, "never").
+// Timing oracle on the virtual clock: ErrActorAskTimeout is a legal result only if at least the
+// timeout has elapsed between the call and its return (whatever an earlier ask left behind). pool
+// selects the sync.Pool policy of the model (0 keeps nothing, 1 LIFO, 2 FIFO) in case the
+// implementation recycles objects between asks.
+func timeoutSeries(lat []string, pool int, bound int) *vsched.Scenario {
+	fam := "timeout-series"
+	const timeout = 10 * time.Millisecond
+	return &vsched.Scenario{
+		Name:     fmt.Sprintf("ask/timeout-series/%v/sync.Pool-policy%d", lat, pool),
+		Bound:    bound,
+		TimerDev: true,
+		Body: func() {
+			vsched.PoolRetain = pool
+			actor := fpgo.ActorNewGenerics(func(self *fpgo.ActorDef[interface{}], msg interface{}) {
+				a := msg.(*fpgo.AskDef[int, int])
+				switch lat[a.Message-1] {
+				case "edge":
+					time.Sleep(timeout)
+				case "late":
+					time.Sleep(2 * timeout)
+				case "never":
+					return
+				}
+				a.Reply(answer(a.Message))
+			})
+			vsched.GoNamed("asker", func() {
+				for k := range lat {
+					p := k + 1
+					t0 := vsched.Clock()
+					v, err := fpgo.AskNewGenerics[int, int](p).AskOnceWithTimeout(actor, timeout)
+					es := "nil"
+					if err == fpgo.ErrActorAskTimeout {
+						es = "timeout"
+					} else if err != nil {
+						es = "other:" + err.Error()
+					}
+					vsched.Event("got", p, v, es, vsched.Clock()-t0)
+				}
+			})
+		},
+		Check: func(r *vsched.Result) []vsched.Failure {
+			fs := e1.Basic("C13", fam, r, nil)
+			if len(r.Panics) > 0 {
+				return fs
+			}
+			for _, e := range r.Events {
+				if e.Kind != "got" {
+					continue
+				}
+				p, v, es, el := e.Args[0].(int), e.Args[1].(int), e.Args[2].(string), e.Args[3].(int64)
+				switch {
+				case es == "nil" && v == answer(p) && lat[p-1] != "never":
+				case es == "timeout" && v == 0 && el >= int64(timeout):
+				case es == "timeout" && v == 0:
+					fs = append(fs, e1.Fail("C13|"+fam+"|early-timeout", "request %d (actor latency %q) returned ErrActorAskTimeout %v after the call, the timeout is %v", p, lat[p-1], time.Duration(el), timeout))
+				default:
+					fs = append(fs, e1.Fail("C13|"+fam+"|wrong-answer", "request %d (actor latency %q) returned (%d, %s); its own answer is %d", p, lat[p-1], v, es, answer(p)))
+				}
+			}
+			return fs
+		},
+	}
+}
+
 func scenarios(tier string) []*vsched.Scenario {
 	b := 2
 	if tier == "thorough" {
@@ -148,6 +228,22 @@ func scenarios(tier string) []*vsched.Scenario {
 			askScenario(n, "timeout", replyLate, true, bb),
 			askScenario(n, "timeout", replyNever, true, bb),
 		)
+		if n <= 2 {
+			for _, own := range []int{0, 1} {
+				out = append(out,
+					askScenarioCh(n, "timeout", replyLate, true, own, bb),
+					askScenarioCh(n, "timeout", replyYield, true, own, bb),
+					askScenarioCh(n, "once", replyYield, true, own, bb))
+			}
+		}
+	}
+	for _, pool := range []int{0, 1, 2} {
+		for _, lat := range [][]string{{"edge", "now"}, {"now", "edge", "now"}, {"late", "now"}, {"never", "now", "now"}} {
+			out = append(out, timeoutSeries(lat, pool, b))
+		}
+	}
+	if tier == "thorough" {
+		out = append(out, timeoutSeries([]string{"edge", "edge", "now", "now"}, 1, 3), timeoutSeries([]string{"edge", "late", "edge", "now"}, 2, 3))
 	}
 	return out
 }
